@@ -50,6 +50,7 @@ type DefCase struct {
 	Trigger  string          `json:"trigger"` // manual | manual+call | msg
 	Ops      []DefOp         `json:"ops"`
 	Opts     *DefOpts        `json:"options,omitempty"` // nil: the engine's defaults
+	Note     string          `json:"note,omitempty"`
 }
 
 // DefOpts: engine options of the feedback family (small step limits: the growth it looks for is exponential in the
@@ -487,7 +488,14 @@ func noContactCases() []*DefCase {
 	for _, name := range names {
 		child := defFlow(2, "messaging", []any{defWaitNode(201, 202), defActionNode(202, 0, actionOfType("send_msg"))})
 		fl := defFlow(1, "messaging", []any{defActionNode(101, 102, acts[name]), defWaitNode(102, 103), defActionNode(103, 0, map[string]any{"type": "set_run_result", "name": "Done", "value": "@contact"})})
-		out = append(out, &DefCase{Kind: "definition", Scenario: "no-contact:" + name, Flow: uuidOf(kFlow, 1), Trigger: "manual-no-contact",
+		site := "contact-modifier" // the class names the place that needs the contact, the note the action
+		switch name {
+		case "send_msg", "enter_flow":
+			site = "send_msg"
+		case "request_optin", "transfer_airtime", "send_email", "send_broadcast", "start_session", "add_input_labels", "set_run_result":
+			site = name
+		}
+		out = append(out, &DefCase{Kind: "definition", Scenario: "no-contact:" + site, Note: "first action: " + name, Flow: uuidOf(kFlow, 1), Trigger: "manual-no-contact",
 			Ops: []DefOp{{Kind: "msg", Text: "a"}, {Kind: "msg", Text: "b"}},
 			Assets: defAssetsWith([]any{fl, child}, map[string]any{
 				"fields": []any{map[string]any{"uuid": uuidOf(kAct, 1099), "key": "x", "name": "X", "type": "text"}},
@@ -545,6 +553,9 @@ func runDefCase(prop string, c *DefCase, res *hx.Result) {
 	input := map[string]any{"kind": "definition", "scenario": c.Scenario, "assets": c.Assets, "flow": c.Flow, "trigger": c.Trigger, "ops": c.Ops}
 	if c.Opts != nil {
 		input["options"] = c.Opts
+	}
+	if c.Note != "" {
+		input["note"] = c.Note
 	}
 	defFailed = false
 	fail := func(class, detail string) { defFailed = true; res.Fail(prop+":"+class+":"+c.Scenario, input, detail) }
